@@ -487,6 +487,7 @@ impl<'a> FixedBumpString<'a> {
             }
 
             if start == end {
+                self.assert_char_boundary(start);
                 return FixedBumpString::new();
             }
 
